@@ -24,7 +24,12 @@ Print Assumptions C10_regular_lines_whitespace_only.
    mentions an include becomes an include, an unbalanced end marker becomes a blank line *)
 Theorem C10_whitespace_only_refuted :
   process_line $"##!> cmdline unix # why" 0 = (Some $"##!> cmdline unix", 1%nat) /\
-  process_line $"##! note ##!> include inc" 0 = (Some $"##!> include inc", 0%nat) /\
   process_line $"##!<" 0 = (None, 0%nat).
 Proof. exact format_keeps_text_refuted. Qed.
 Print Assumptions C10_whitespace_only_refuted.
+
+(* a comment that mentions an include directive stays a comment (IncludeRegex anchored, fix: 597d59c) *)
+Theorem C10_comment_mentioning_include_kept :
+  process_line $"##! note ##!> include inc" 0 = (Some $"##! note ##!> include inc", 0%nat).
+Proof. exact comment_mentioning_include_kept. Qed.
+Print Assumptions C10_comment_mentioning_include_kept.
